@@ -208,7 +208,7 @@ func checkC01(c *Ctx, w *World) {
 					return false
 				}
 				n++
-				return originsAll(call.Call.Args[0], func(o Origin) bool { return o.Kind == "const" || isCallOrigin(o, ".GetAffinityKey") })
+				return originsAll(call.Call.Args[0], func(o Origin) bool { return o.Kind == "const" || o.Kind == "zero" || isCallOrigin(o, ".GetAffinityKey") })
 			})
 			return all && n > 0
 		}
@@ -259,7 +259,18 @@ func checkC01(c *Ctx, w *World) {
 		eq, wit := pcs.Equiv(pcs.OnlyNamed(pcs.Reach(call)), want)
 		c.check(eq, "C01.extract", "request key extraction: condition", p.ipos(call), "performed ⇔ method configured ∧ interceptor context present ∧ command ∈ {BOUND, UNBIND}", "request key is not extracted exactly for configured BOUND/UNBIND calls: "+wit)
 		f, base, isL := loadedField(call.Call.Args[1])
-		locOK := originsAll(call.Call.Args[0], func(o Origin) bool { return isCallOrigin(o, ".GetAffinityKey") })
+		locOK := false
+		{
+			n := 0
+			all := originsAll(call.Call.Args[0], func(o Origin) bool {
+				if isCallOrigin(o, ".GetAffinityKey") {
+					n++
+					return true
+				}
+				return o.Kind == "zero" || isZeroConstOrigin(o) // the variable's initial value (unconfigured method)
+			})
+			locOK = all && n > 0
+		}
 		c.check(isL && f == "gcpContext.reqMsg" && gcpCtxValue(base) && locOK, "C01.extract", "request key extraction: arguments", p.ipos(call), "key path of the configured method applied to this call's request message", "extraction does not use the method's key path on the request message")
 	}
 	if len(gcalls) == 1 {
@@ -310,22 +321,51 @@ func lookupRules(pl *pool, grs, gsr *ssa.Function, R func(string) string, strict
 	KF, HR, FB := gcs.Atom("keyFound"), gcs.Atom("homeReady"), gcs.Atom("fallback")
 	homeRet := gcs.False()
 	nret := 0
-	for i, vr := range gcs.VirtualReturns() {
+	type lret struct {
+		ret   *ssa.Return
+		cond  Bits
+		slot  ssa.Value
+		found int // 1 true, 0 false, -1 undecidable
+	}
+	var lrets []lret
+	for _, vr := range gcs.VirtualReturns() {
 		// (a return of values merged from several branches is split per way of arriving)
+		isConst := func(want string) bool {
+			ok, _ := allOrigins(vr.Vals[1], func(o Origin) bool {
+				return o.Kind == "const" && o.Val.(*ssa.Const).Value != nil && o.Val.(*ssa.Const).Value.String() == want
+			})
+			return ok
+		}
+		switch {
+		case isConst("true"):
+			lrets = append(lrets, lret{vr.Ret, vr.Cond, vr.Vals[0], 1})
+		case isConst("false"):
+			lrets = append(lrets, lret{vr.Ret, vr.Cond, vr.Vals[0], 0})
+		default:
+			// the flag is a computed value (typically the comma-ok flag of the key lookup itself, returned through a named
+			// result): the exit is split into the ways on which it is true and those on which it is false
+			if fv, ok := gcs.EvalValue(vr.Vals[1]); ok {
+				if t := and(vr.Cond, fv); gcs.Satisfiable(t) {
+					lrets = append(lrets, lret{vr.Ret, t, vr.Vals[0], 1})
+				}
+				if f := and(vr.Cond, gcs.Not(fv)); gcs.Satisfiable(f) {
+					lrets = append(lrets, lret{vr.Ret, f, vr.Vals[0], 0})
+				}
+			} else {
+				lrets = append(lrets, lret{vr.Ret, vr.Cond, vr.Vals[0], -1})
+			}
+		}
+	}
+	for i, lr := range lrets {
 		nret++
-		r := vr.Ret
+		r := lr.ret
 		construct := fmt.Sprintf("getReadySubConnRef return#%d", i+1)
-		reach := vr.Cond
-		foundTrue, _ := allOrigins(vr.Vals[1], func(o Origin) bool {
-			return o.Kind == "const" && o.Val.(*ssa.Const).Value != nil && o.Val.(*ssa.Const).Value.String() == "true"
-		})
-		foundFalse, _ := allOrigins(vr.Vals[1], func(o Origin) bool {
-			return o.Kind == "const" && o.Val.(*ssa.Const).Value != nil && o.Val.(*ssa.Const).Value.String() == "false"
-		})
-		v, onlyNil, ok := slotOrigin(vr.Vals[0])
+		reach := lr.cond
+		foundTrue, foundFalse := lr.found == 1, lr.found == 0
+		v, onlyNil, ok := slotOrigin(lr.slot)
 		switch {
 		case !ok || (!foundTrue && !foundFalse):
-			c.undecided(R("C01.lookup"), construct, p.ipos(r), "result has mixed origins: "+originStrings(origins(vr.Vals[0])))
+			c.undecided(R("C01.lookup"), construct, p.ipos(r), "result has mixed origins: "+originStrings(origins(lr.slot)))
 		case foundFalse:
 			imp, wit := gcs.Implies(reach, gcs.Not(KF))
 			c.check(imp && onlyNil, R("C01.lookup"), construct, p.ipos(r), "reports 'not bound' only when the key is not in the table, with no slot", "a bound key can be reported as unknown (the call would then be load-balanced): "+wit)
@@ -387,6 +427,9 @@ func lookupRules(pl *pool, grs, gsr *ssa.Function, R func(string) string, strict
 func isRequestKey(o Origin) bool {
 	if s, ok := constString(o.Val); ok && s == "" {
 		return true
+	}
+	if o.Kind == "zero" {
+		return true // the zero value of the string variable that holds the key
 	}
 	if o.Kind == "param" && o.Val.Name() == "boundKey" {
 		return true
